@@ -264,12 +264,12 @@ func c09CredCheck(c *kit.Ctx, a *c09Anchors, m *storeModel) {
 	if cr.pathFn == nil {
 		c.Fatalf("%s calls no recursive search with a bool result (live path to root)", f.Name)
 	}
-	if l, ok := f.Enclosing(cr.pathCall, func(n ast.Node) bool { _, ok := n.(*ast.RangeStmt); return ok }).(*ast.RangeStmt); ok {
+	if l := f.EnclosingLoop(cr.pathCall); l != nil {
 		cr.loop2 = l
 		cr.s1 = kit.ObjOf(info, l.X)
 	}
 	if cr.loop2 == nil || cr.s1 == nil {
-		c.Fatalf("%s: the live-path search is not called in a range loop over a slice variable", f.Name)
+		c.Fatalf("%s: the live-path search is not called in a loop over a slice variable", f.Name)
 	}
 	ast.Inspect(f.Body, func(n ast.Node) bool {
 		if _, ok := n.(*ast.FuncLit); ok {
@@ -374,13 +374,7 @@ func c09CredCheck(c *kit.Ctx, a *c09Anchors, m *storeModel) {
 			}
 		}
 		if hit {
-			if l, ok := f.Enclosing(e, func(x ast.Node) bool {
-				switch x.(type) {
-				case *ast.RangeStmt, *ast.ForStmt:
-					return true
-				}
-				return false
-			}).(*ast.RangeStmt); ok {
+			if l := f.EnclosingLoop(e); l != nil {
 				cr.loop1 = l
 			}
 		}
@@ -388,7 +382,7 @@ func c09CredCheck(c *kit.Ctx, a *c09Anchors, m *storeModel) {
 	})
 	oM := r5.Ob(f, nil, "match table", "a candidate is kept iff its e-mail equals the e-mail parameter ∧ its password equals the password parameter (4 valuations)")
 	if cr.loop1 == nil {
-		oM.Undecided("the e-mail comparison is not inside a range loop")
+		oM.Undecided("the e-mail comparison is not inside a loop over a slice")
 	} else {
 		isKeep := func(call *ast.CallExpr) bool {
 			for _, k := range cr.keeps {
@@ -533,8 +527,8 @@ func c09CredCheck(c *kit.Ctx, a *c09Anchors, m *storeModel) {
 		// the argument of the search is the id of the candidate being ranged over
 		argOK := false
 		if len(cr.pathCall.Args) == 1 {
-			if sel, ok := ast.Unparen(cr.pathCall.Args[0]).(*ast.SelectorExpr); ok && cr.loop2.Value != nil &&
-				kit.ObjOf(info, sel.X) == kit.ObjOf(info, cr.loop2.Value) {
+			if sel, ok := ast.Unparen(cr.pathCall.Args[0]).(*ast.SelectorExpr); ok &&
+				(kit.LoopElem(info, cr.loop2, sel.X) || kit.ElemAliases(info, cr.loop2)[kit.ObjOf(info, sel.X)]) {
 				argOK = true
 			}
 		}
@@ -588,16 +582,22 @@ func c09LivePath(c *kit.Ctx, a *c09Anchors, m *storeModel, r5 *kit.Rule, cr *c09
 			recCall = call
 		}
 	}
+	// outer loop: the outermost loop over a slice (range or counting form) around the recursive call
 	var outer *ast.RangeStmt
-	for x := c.P.Parent(pf.File, recCall); x != nil && x != pf.Node(); x = c.P.Parent(pf.File, x) {
-		if r, ok := x.(*ast.RangeStmt); ok {
-			outer = r // keeps the outermost
+	for _, l := range pf.SliceLoops(pf.Node()) {
+		if l.Body.Pos() <= recCall.Pos() && recCall.End() <= l.Body.End() {
+			if outer == nil || l.Body.Pos() < outer.Body.Pos() {
+				outer = l
+			}
 		}
 	}
-	if outer == nil || outer.Value == nil {
-		c.Fatalf("%s: the recursive call is not inside a range loop with a value variable", pf.Name)
+	if outer == nil {
+		c.Fatalf("%s: the recursive call is not inside a loop over a slice", pf.Name)
 	}
-	edgeVar := kit.ObjOf(info, outer.Value)
+	edgeVar := kit.LoopElemVar(info, outer)
+	if edgeVar == nil {
+		c.Fatalf("%s: the loop around the recursive call names no element variable", pf.Name)
+	}
 	// the points of an edge may be scanned in the search itself or in a predicate
 	// it calls: every range over a data.Points field of a value of the edge's type
 	// in package store yields "edge point" variables
